@@ -35,8 +35,12 @@ def main():
                 core.REPLAYS = Path(os.environ["VERIF_SCRATCH_OUT"]) / "replays"
         if not a.no_proof:
             audit = core.proof_audit(pid, leanchecker=(a.tier == "thorough"))
+        tie = core.tie_audit(pid)
+        if tie is not None and not tie["ok"]:
+            print(f"[{pid}] tie to the source broken: " + "; ".join(
+                f"{f['module']}: {', '.join(f.get('declarations', [])) or f.get('reason', '')}" for f in tie["failing"]))
         search = mod.run(chk)
-        rc = chk.finish(audit if not a.no_proof else _fake_ok(), search)
+        rc = chk.finish(audit if not a.no_proof else _fake_ok(), search, tie=tie)
         sys.exit(rc)
     except SystemExit:
         raise
